@@ -296,3 +296,41 @@ func buildHost() (*Object, error) {
 			return renderMsg(m), nil
 		}}, nil
 }
+
+// buildHostSharedOpts: like host, but the callers share ONE agent option that carries the compose options they
+// have in common, built from a slice with spare capacity (a slice grown by append). Option values belong to
+// the callers; a run must not store its own per-call additions in them.
+func buildHostSharedOpts() (*Object, error) {
+	ma, err := host.NewMultiAgent(context.Background(), &host.MultiAgentConfig{
+		Name:        "HOST",
+		Host:        host.Host{ToolCallingModel: &hostModel{}, SystemPrompt: "route"},
+		Specialists: []*host.Specialist{specialist("sp1"), specialist("sp2")},
+	})
+	if err != nil {
+		return nil, err
+	}
+	base := make([]compose.Option, 0, 4)
+	base = append(base, compose.WithChatModelOption(model.WrapImplSpecificOptFn(func(o *modelTag) { o.Tag = "everybody" })))
+	common := agent.WithComposeOptions(base...)
+	return &Object{Kind: "host-shared-opts", Paradigms: []string{"invoke", "stream"},
+		call: func(ctx context.Context, r *Rec, paradigm string) (string, error) {
+			in := []*schema.Message{schema.UserMessage("question of " + r.Caller)}
+			opts := []agent.AgentOption{
+				common,
+				host.WithAgentCallbacks(&handOff{owner: r}),
+				agent.WithComposeOptions(compose.WithCallbacks(Handler(r))),
+			}
+			if paradigm == "stream" {
+				sr, err := ma.Stream(ctx, in, opts...)
+				if err != nil {
+					return "", err
+				}
+				return drainMsg(sr)
+			}
+			m, err := ma.Generate(ctx, in, opts...)
+			if err != nil {
+				return "", err
+			}
+			return renderMsg(m), nil
+		}}, nil
+}
